@@ -20,6 +20,7 @@ def parseKind : String → ReqKind
 def cbName : Cb → String
   | .made => "made" | .started => "started" | .data => "data" | .eof => "eof" | .exit => "exit"
   | .ptyReq => "pty" | .sessReq k => "req:" ++ kindName k | .lost e => "lost:" ++ excName e
+  | .pauseW => "pause_writing" | .resumeW => "resume_writing"
 
 def ocbName : OCb → String
   | .made => "made" | .sessionRequested => "session_requested" | .serverRequested => "server_requested"
@@ -52,7 +53,7 @@ def b (s : String) : Bool := s == "1"
 
 def parseApp : String → Option AppOp
   | "write" => some .write | "eof" => some .eof | "close" => some .close | "abort" => some .abort
-  | "pause" => some .pause | "resume" => some .resume | "exit" => some .exit | _ => none
+  | "pause" => some .pause | "resume" => some .resume | "exit" => some .exit | "drain" => some .drain | _ => none
 
 def parseMode : String → OpenMode
   | "refuse" => .refuse | "later" => .later | _ => .accept
@@ -67,14 +68,16 @@ def showConn (tag : String) (s : Conn) : List String :=
         let ch := cs.slot.bind (fun k => s.chans[k]?)
         let tr := (ch.map (fun c => c.trace.map cbName)).getD []
         let wc := (ch.map (fun c => s!"{c.wcDone}/{c.wcPending}")).getD "0/0"
+        let dr := (ch.map (fun c => s!"{c.drainDone}/{c.drainPending}")).getD "0/0"
         let out : Outcome := if cs.early then .openErr 2 else (ch.map (·.outcome)).getD .pending
-        s!"c{i}={join tr};out={outcomeName out};wc={wc}"
+        s!"c{i}={join tr};out={outcomeName out};wc={wc};dr={dr}"
     else
       s.srv.zipIdx.map fun (slot, j) =>
         let ch := slot.bind (fun k => s.chans[k]?)
         let tr := (ch.map (fun c => c.trace.map cbName)).getD []
         let wc := (ch.map (fun c => s!"{c.wcDone}/{c.wcPending}")).getD "0/0"
-        s!"s{j}={join tr};wc={wc}"
+        let dr := (ch.map (fun c => s!"{c.drainDone}/{c.drainPending}")).getD "0/0"
+        s!"s{j}={join tr};wc={wc};dr={dr}"
   [s!"{tag}.owner={join (s.ownerTrace.map ocbName)}", s!"{tag}.table={join (regSlots s)}",
    s!"{tag}.cwc={s.wcDone}/{s.wcPending}", s!"{tag}.closed={if s.closeEvent then 1 else 0}"] ++ sess ++
   (if s.isClient then s.greqs.zipIdx.map (fun (o, i) => s!"g{i}={outcomeName o}") ++
@@ -138,6 +141,7 @@ def step (d : DState) (ws : List String) : DState × String :=
     ({ d with y := { d.y with s := { d.y.s with pfModes := d.y.s.pfModes ++ [parseMode mode] } } }, "ok")
   | ["open", nenv, pty, kind, eofr, armed] =>
     evStep d (.op true (.open_ { nenv := nenv.toNat!, pty := b pty, kind := parseKind kind, eofRet := b eofr, armed := b armed }))
+  | ["op", side, i, "limits", hi, lo] => evStep d (.op (sideOf side) (.chanOp i.toNat! (.limits hi.toNat! lo.toNat!)))
   | ["op", side, i, o] =>
     (match parseApp o with
      | some a => evStep d (.op (sideOf side) (.chanOp i.toNat! a))
